@@ -13,7 +13,7 @@ IDLE, OPEN, BUSY, CLOSED = 1, 2, 3, 4
 SERIAL_SKELETONS = ['open', 'one', 'two', 'after-timeout', 'chunked', 'timeout-in-write', 'expired-on-arrival',
                     'retry-from-handler', 'request-during-reconnect', 'second-life']
 MUX_SKELETONS = ['open', 'one', 'three', 'timed-out+one', 'queued', 'ping', 'silent-inflight', 'requests-while-opening',
-                 'retry-from-handler', 'stalled-peer', 'pings-ignored-under-traffic']
+                 'retry-from-handler', 'stalled-peer', 'pings-ignored-under-traffic', 'many-inflight']
 FAULTS = ['error', 'eof', 'refuse', 'silence']
 OPS = [('connect', 0)] + [('send', i) for i in range(4)] + [('recv', i) for i in range(10)]
 
@@ -45,7 +45,7 @@ class C08(BaseCheck):
   ID = 'C08'
   LEVEL = 'fault_enumeration'
   RULE = ('enumerated space = {serial Thrift transport x skeletons open/one/two/after-timeout/chunked/timeout-in-write (deadline fires inside a blocked partial write)/expired-on-arrival (deadline already past when the request reaches the transport)/retry-from-handler (the error handler of a failed request hands a follow-up to the transport synchronously, below the timeout sink)/second-life (closed by its owner and opened again; faults then hit the second connection)/request-during-reconnect (a second request reaches the transport while it re-establishes its connection after a timeout, 0.2 s connect latency), '
-          'ThriftMux transport x skeletons stalled-peer (the peer reads and answers nothing: one request blocked in its write, two queued, the ping behind them must still bring the transport down)/pings-ignored-under-traffic (one answered request per second, no ping answered any more)/open(incl. initial ping)/one/three concurrent/timed-out+one/'
+          'ThriftMux transport x skeletons many-inflight (64/65/130/300 unanswered requests in flight when the connection dies)/stalled-peer (the peer reads and answers nothing: one request blocked in its write, two queued, the ping behind them must still bring the transport down)/pings-ignored-under-traffic (one answered request per second, no ping answered any more)/open(incl. initial ping)/one/three concurrent/timed-out+one/'
           'queued(stalled writer)/ping/requests-while-opening/silent-inflight (peer goes silent with a request in flight and a timed-out one unacknowledged)} + {reply and close (FIN/RST) in one instant on request 0/1/2} x connection ordinal {0,1} x op {connect; send 0-3; recv 0-9} x fault '
           '{exception, EOF, refusal, silence}; quick and thorough both sweep it completely (thorough adds '
           'seeded timing variants per point). A point whose planned fault never fires (the skeleton performs '
@@ -63,7 +63,7 @@ class C08(BaseCheck):
              'scales.scales_socket:ScalesSocket.open')
   REQUIRED_ANCHORS = ANCHORS
   REQUIRED_CLASSES = ('thrift', 'mux', 'fault:connect', 'fault:send', 'fault:recv', 'kind:error', 'kind:eof',
-                      'kind:refuse', 'kind:silence', 'reconnect-fault', 'probe', 'ping-silence', 'reply-and-close-same-instant', 'timeout-in-write', 'silent-with-inflight', 'requests-while-opening',
+                      'kind:refuse', 'kind:silence', 'reconnect-fault', 'probe', 'ping-silence', 'many-inflight', 'reply-and-close-same-instant', 'timeout-in-write', 'silent-with-inflight', 'requests-while-opening',
                       'expired-on-arrival', 'retry-from-handler', 'request-during-reconnect', 'stalled-peer', 'pings-ignored-under-traffic', 'second-life')
   ASSUMPTIONS = ('a silence fault (peer stops answering without closing) legitimately leaves the transport '
                  'open; only the probe clause applies then',)
@@ -383,6 +383,15 @@ class C08(BaseCheck):
             out.violate('ping:no-shutdown', 'the peer has answered requests but no ping for %.0fs (pings are due every 30-40 s, '
                         '5 s grace; pings it ignored: %d) and the transport reports state %s (fault signals: %d)' % (
                           env.now - t_from, len(srv.pings) - plan['ping-drop-after'], transport.state, len(faults)), facts0)
+      elif sk == 'many-inflight':
+        # dozens to hundreds of requests are in flight (written, unanswered) when the connection dies - by
+        # the planned fault, or at the latest when the peer hangs up on the last request
+        classes.add('many-inflight')
+        for _ in range((65, 130, 64, 300)[(idx + variant) % 4]):
+          request(T=600.0, act={'drop': True})
+        env.advance(0.5)
+        request(T=600.0, act={'delay': 0.01, 'close': ('fin', 'rst')[((idx + variant) // 4) % 2], 'close_delay': 0.01})
+        env.advance(1.5)
       elif sk == 'stalled-peer':
         # the peer stalls completely (reads nothing, answers nothing, connection up): one request is
         # blocked inside its write, two more wait in the send queue behind it; the keep-alive ping
